@@ -627,7 +627,8 @@ def cv12(prog, rr):
     lpv = None
     for lp in walk_local(sm.node):
         if isinstance(lp, ast.For):
-            lpv = norm(lp.target)
+            # `for i, s in enumerate(specs)`: the pattern is the last element of the target
+            lpv = norm(lp.target.elts[-1]) if isinstance(lp.target, ast.Tuple) else norm(lp.target)
         elif isinstance(lp, (ast.GeneratorExp, ast.ListComp)) and lp.generators:
             lpv = norm(lp.generators[0].target)
     from sa.ir import find_local
